@@ -49,8 +49,8 @@ def lib_source(tests):
 
 def build_lib(build, d, name, tests):
     srcs = []
-    for suffix, text in lib_sources(tests).items():
-        src = os.path.join(d, "%s_%s.c" % (name, suffix))
+    for k, (suffix, text) in enumerate(lib_sources(tests).items()):
+        src = os.path.join(d, "%s_%s.c" % (name, suffix if len(suffix) < 60 else "ctx%d" % k))
         open(src, "w").write(text)
         srcs.append(src)
     so = os.path.join(d, name + ".so")
